@@ -9,6 +9,49 @@ TECH = ("explicit TLA+ specification checked with TLC (exhaustive small configur
         "validation of executions of the real code driven by TLC-enumerated and random stimuli")
 
 CLAIMED = {
+ "C01": dict(
+   text="SampleFormats.tla states integer conversion as its defining formula (signed amplitude x 2^(target bits - source bits), floored) in exact "
+        "limb arithmetic. TLC checks the property's corollaries on it (widen-narrow identity, equilibrium and extremes, monotonicity, range, path "
+        "independence through every admissible intermediate) for all 132 format pairs over boundary-structured value sets and exhaustively on "
+        "scaled-down widths, and emits the boundary cases; the harness executes every case through all three API routes (to_sample, from_sample, "
+        "conv::<src>::to_<dst>) plus exhaustive 8-bit sources, strided (quick) / exhaustive (thorough) 16-bit sources and random wide values, and TLC "
+        "judges every result bit-exactly against the formula (including range of the 24/48-bit types).",
+   note="Trusted: TLC, Big.tla (cross-checked against numpy), harness loggers. Sources wider than 16 bits are sampled (boundary + random), not exhausted.",
+   design="5/C01"),
+ "C02": dict(
+   text="SampleFormats.tla/Dyadic.tla state int->float as amplitude / 2^(bits-1) correctly rounded, float->int as x 2^(bits-1) truncated toward zero "
+        "and re-offset, f32<->f64 as exact / correctly rounded. TLC checks the corollaries (within [-1,1], monotone, equilibrium, exactness iff the "
+        "width fits the mantissa, float->int inverts exact int->float, anchors) over boundary sets and emits them; the harness executes them and "
+        "exhaustive 8/16-bit sources, random floats in [-1,1) incl. subnormals and grid points +-1 ulp, ties/overflow for f64->f32 through all API "
+        "routes; TLC judges every result bit for bit from the IEEE fields.",
+   note="Trusted: TLC, Big/Dyadic (cross-checked against numpy), harness loggers, rustc's IEEE semantics. The 2^32 f32 patterns x 12 targets are sampled.",
+   design="5/C02"),
+ "C15": dict(
+   text="SampleTypes.tla models the eight custom-width types (checked new, From<backing> wrapping mod 2^bits, widening From, order, Add/Sub/Mul/Neg "
+        "with panic-on-overflow under debug assertions and wrap otherwise). TLC checks closure (every result in [MIN,MAX] or a panic) over boundary "
+        "sets and emits them; the harness is built and run in BOTH the debug and the release profile (each event logs cfg!(debug_assertions)) on "
+        "boundary pairs, random pairs, far out-of-range From inputs, every widening From, comparisons, and in thorough all 2048^2 I11/U11 pairs x 3 "
+        "ops; TLC judges every result exactly (value or panic according to the build).",
+   note="Trusted: TLC, Big.tla, harness loggers. Wider types are sampled (boundary + random). Neg of the unsigned U11 is outside the statement ('negation "
+        "of signed ones') and reported as out-of-domain, not judged.",
+   design="5/C15"),
+ "C04": dict(
+   text="Signals.tla gives adaptor terms (map, zip_map, add/mul/scale/offset and per-channel variants, clip, inspect, delay, by_ref, sources, consumers) "
+        "two independent semantics: an operational one mirroring each impl Signal (per-node state, shared source cursors, from_iter look-ahead) and a "
+        "denotational one (n-th output = pointwise function of the n-th source frames, pulls per source). TLC enumerates all well-sorted terms to depth "
+        "2 over sources of length 0..4 and checks operational = denotational, one pull per source per next (none during delay silence) and resume-after-"
+        "by_ref; every term is then built from the REAL adaptor structs by a dynamic term builder over instrumented sources (plus random terms to depth "
+        "5, 20 frame types) and TLC validates every frame and every per-source pull count against the denotation.",
+   note="Trusted: TLC, Big/Dyadic/SampleFormats, harness loggers and its boxed-dyn term builder. Depth-3 terms are covered by random depth-5 terms, not "
+        "exhaustively. Events whose arithmetic leaves the defined domain (overflow) are not judged.",
+   design="5/C04 / C05"),
+ "C05": dict(
+   text="Same model and pipeline as C04 (Signals.tla); the C05 pass judges the exhaustion conjuncts: is_exhausted before/after every next equals the "
+        "denotational length (min over sources, + k for delay; OR for combiners; delay live during its silence), equilibrium forever after the end of a "
+        "source, until_exhausted / lift yield exactly Len(t) frames then None for good, take(n) yields n, interleaved sources drop a trailing partial "
+        "frame and interleaved output yields frames x channels samples in channel order then None.",
+   note="Trusted: as C04. MulHz's exhaustion (OR of source and control) is checked with C08.",
+   design="5/C04 / C05"),
  "C06": dict(
    text="RingBuffer.tla models Bounded/Fixed at two layers (code-shaped representation, ideal queue/delay line). "
         "TLC checks that every operation from EVERY valid representation state (capacity 1..3 quick / 1..4 thorough) "
